@@ -1,0 +1,21 @@
+//go:build verif
+
+package plugin
+
+import "github.com/cloudwego/thriftgo/parser"
+
+// Exported for verification builds only (-tags verif): include compression is switched on
+// only for plugins whose build info reports a released thriftgo >= v0.4.2, which a locally
+// built plugin cannot report.
+
+func VerifCompressThriftInclude(p *parser.Thrift, m map[string]*parser.Thrift) {
+	compressThriftInclude(p, m)
+}
+
+func VerifDecompressThriftInclude(p *parser.Thrift, m map[string]*parser.Thrift) {
+	decompressThriftInclude(p, m)
+}
+
+func VerifAppendDataTrailer(data []byte) []byte {
+	return appendDataTrailer(data, featureCompressInclude)
+}
